@@ -75,6 +75,9 @@ def run(ck):
     ck.assumptions += ['pairs off the lattice are not decided', 'for constructed pairs the crossing is unique (NE- vs SE-monotone control polygons): any other reported pair is spurious']
     if not quick:
         ck.tlc('Crossings', 'Crossings_MC.cfg', timeout=1200)
+        # Subdiv.tla: Sound (whatever the loop reports lies on two small pieces whose boxes meet) + conformance of the real loop (details: C12)
+        from .. import subdivmodel
+        subdivmodel.run(ck, True)
     # the model invariants are checked in the same TLC run that exports the cases
     d = 'SPECIFICATION Spec\nCONSTANTS Q = %d\n Fams = {"%s"}\nINVARIANT MeetExactly\nINVARIANT Monotone\nINVARIANT TransversalOK\nINVARIANT Separated\nINVARIANT Dump\n'
     for q, fam, n in ((3, 'cross', 150 if quick else 1200), (2, 'cross', 60 if quick else 400), (3, 'apart', 150 if quick else 1500)):
